@@ -288,7 +288,7 @@ func TestVerifC03(t *testing.T) {
 	// ---- A4: the TLC behaviour "sender between the done check and registerRPC while fail() runs": the sender is held while it
 	// serialises the request (after QueueRPC saw the client alive, before registerRPC), Close() is held inside conn.Close, the
 	// sender goes on (registers, writes on the still open socket), then Close() finishes. The call must be completed.
-	for _, kind := range []string{"get", "put"} {
+	for _, kind := range []string{"get", "put", "get-batched"} {
 		name := "A4/sender-registers-while-close-is-inside-conn.Close/" + kind
 		synctest.Test(t, func(t *testing.T) {
 			closeHeld, closeGo := make(chan struct{}), make(chan struct{})
@@ -301,9 +301,17 @@ func TestVerifC03(t *testing.T) {
 				return nil
 			}
 			env := newRCEnv(rcOpts{queueSize: 1, hook: hook})
-			c1 := env.newCall("a4", kind, false)
 			serialising, goOn := make(chan struct{}), make(chan struct{})
-			c1.call = &c03gated{Call: c1.call, gate: func() { close(serialising); <-goOn }}
+			var c1 *rcCall
+			if kind == "get-batched" { // the sender is the batcher goroutine, serialising its multi
+				env.finish()
+				env = newRCEnv(rcOpts{queueSize: 2, flushInterval: time.Millisecond, hook: hook})
+				c1 = env.newCall("a4", "get", true)
+				c1.call = &c03gatedGet{Get: c1.call.(*hrpc.Get), gate: func() { close(serialising); <-goOn }}
+			} else {
+				c1 = env.newCall("a4", kind, false)
+				c1.call = &c03gated{Call: c1.call, gate: func() { close(serialising); <-goOn }}
+			}
 			env.goQueue(c1)
 			<-serialising // past the done check, not yet registered
 			holdClose.Store(true)
@@ -466,6 +474,21 @@ type c03gated struct {
 	hrpc.Call
 	gate func()
 	once atomic.Bool
+}
+
+// c03gatedGet is the batchable form (a wrapper around the hrpc.Call interface is not hrpc.Batchable: the region client
+// would send it unbatched): the gate is hit when the batcher serialises the multi that carries this Get.
+type c03gatedGet struct {
+	*hrpc.Get
+	gate func()
+	once atomic.Bool
+}
+
+func (g *c03gatedGet) ToProto() proto.Message {
+	if g.once.CompareAndSwap(false, true) {
+		g.gate()
+	}
+	return g.Get.ToProto()
 }
 
 func (g *c03gated) ToProto() proto.Message {
